@@ -243,11 +243,6 @@ Definition add_import (l : list imp) (i : imp) : list imp * bool :=
 Definition del_import (l : list imp) (name : option N) (path : N) : list imp :=
   filter (fun x => negb (imp_eqb x {| i_name := name; i_path := path; i_base := 0 |})) l.
 
-Inductive coutcome :=
-| ONoMatch
-| OErr (e : rerr)
-| OOk (f : gofile).
-
 Fixpoint size (v : val) : nat :=
   match v with
   | Struct _ fs => S (fold_right (fun x n => (size x + n)%nat) 0%nat fs)
@@ -255,6 +250,59 @@ Fixpoint size (v : val) : nat :=
   | Ptr _ x | Iface _ x => S (size x)
   | _ => 1%nat
   end.
+
+(* ImportReplacer.Replace for one import clause of the '+' side *)
+Definition add_plus_import (mk : N -> option mkind) (id : idata) (dinit : data)
+           (acc : res (list imp * list N)) (p : pimp) : res (list imp * list N) :=
+  match acc with
+  | Err e => Err e
+  | Ok (imps, names) =>
+      let via_unnamed := match p_name p with
+                         | Some pn => is_ident_mv mk pn &&
+                                      existsb (fun b => N.eqb (fst (snd b)) pn && snd (snd b)) (id_bound id)
+                         | None => false
+                         end in
+      let nm : res (option N * N) :=
+        match p_name p with
+        | None => Ok (None, p_base p)
+        | Some pn =>
+            if via_unnamed then Ok (None, pn)
+            else match mk pn with
+                 | Some _ => match assoc pn (d_mv dinit) with
+                             | Some v => match ident_name v with
+                                         | Some n => Ok (Some n, n)
+                                         | None => Err (ENoMetavar pn)
+                                         end
+                             | None => Err (ENoMetavar pn)
+                             end
+                 | None => Ok (Some pn, pn)
+                 end
+        end in
+      match nm with
+      | Err e => Err e
+      | Ok (name, pkgname) =>
+          let (imps', added) := add_import imps {| i_name := name; i_path := p_path p; i_base := p_base p |} in
+          Ok (imps', if added then names ++ [pkgname] else names)
+      end
+  end.
+
+(* ImportsReplacer.Cleanup for one matched import *)
+Definition cleanup_import (id : idata) (new_names : list N) (tree : val) (imps : list imp) (pb : N * N) : list imp :=
+  let path := fst pb in
+  let '(pkgname, impname) :=
+    match assoc path (id_bound id) with
+    | Some (n, true) => (n, None)
+    | Some (n, false) => (n, Some n)
+    | None => (snd pb, None)
+    end in
+  if existsb (N.eqb pkgname) new_names || negb (uses_name (S (size tree)) pkgname tree)
+  then del_import imps impname path
+  else imps.
+
+Inductive coutcome :=
+| ONoMatch
+| OErr (e : rerr)
+| OOk (f : gofile).
 
 Definition apply_change (c : cchange) (g : gofile) : coutcome :=
   let mk := mk_of c in
@@ -275,39 +323,7 @@ Definition apply_change (c : cchange) (g : gofile) : coutcome :=
           (* FileReplacer.Replace *)
 
           (* imports named on the '+' side *)
-          let add1 := fun (acc : res (list imp * list N)) (p : pimp) =>
-            match acc with
-            | Err e => Err e
-            | Ok (imps, names) =>
-                let via_unnamed := match p_name p with
-                                   | Some pn => is_ident_mv mk pn &&
-                                                existsb (fun b => N.eqb (fst (snd b)) pn && snd (snd b)) (id_bound id)
-                                   | None => false
-                                   end in
-                let nm : res (option N * N) :=
-                  match p_name p with
-                  | None => Ok (None, p_base p)
-                  | Some pn =>
-                      if via_unnamed then Ok (None, pn)
-                      else match mk pn with
-                           | Some _ => match assoc pn (d_mv dinit) with
-                                       | Some v => match ident_name v with
-                                                   | Some n => Ok (Some n, n)
-                                                   | None => Err (ENoMetavar pn)
-                                                   end
-                                       | None => Err (ENoMetavar pn)
-                                       end
-                           | None => Ok (Some pn, pn)
-                           end
-                  end in
-                match nm with
-                | Err e => Err e
-                | Ok (name, pkgname) =>
-                    let (imps', added) := add_import imps {| i_name := name; i_path := p_path p; i_base := p_base p |} in
-                    Ok (imps', if added then names ++ [pkgname] else names)
-                end
-            end in
-          match fold_left add1 (ch_plus_imports c) (Ok (g_imports g, [])) with
+          match fold_left (add_plus_import mk id dinit) (ch_plus_imports c) (Ok (g_imports g, [])) with
           | Err e => OErr e
           | Ok (imps1, new_names) =>
               match snd sc with
@@ -316,18 +332,7 @@ Definition apply_change (c : cchange) (g : gofile) : coutcome :=
                   let tree1' := rw mk ad (ch_minus c) (ch_plus c) dinit fuel (g_tree g) in
                   let tree1 := match ch_plus_pkg c with Some p => set_pkg_name tree1' p | None => tree1' end in
                   (* ImportsReplacer.Cleanup *)
-                  let cleanup := fun (imps : list imp) (pb : N * N) =>
-                    let path := fst pb in
-                    let '(pkgname, impname) :=
-                      match assoc path (id_bound id) with
-                      | Some (n, true) => (n, None)
-                      | Some (n, false) => (n, Some n)
-                      | None => (snd pb, None)
-                      end in
-                    if existsb (N.eqb pkgname) new_names || negb (uses_name (S (size tree1)) pkgname tree1)
-                    then del_import imps impname path
-                    else imps in
-                  OOk {| g_imports := fold_left cleanup (id_matched id) imps1; g_tree := tree1 |}
+                  OOk {| g_imports := fold_left (cleanup_import id new_names tree1) (id_matched id) imps1; g_tree := tree1 |}
               end
           end
       end
